@@ -122,4 +122,15 @@ var configs = map[string]propCfg{
 			"Non-trivial = a run with >= 1 diagnostic line in a non-root layout or with a non-textbook header; distinct by workspace+layout+flags.",
 		Assumptions: []string{"generated files follow the published Go convention (a `// Code generated ... DO NOT EDIT.` line comment before the package clause)", "workspace packages import the standard library only"},
 	},
+	"C08": {
+		Quick:    tierCfg{Shards: 10, Checks: 8, Limit: qLimit},
+		Thorough: tierCfg{Shards: 16, Checks: 120, Limit: tLimit},
+		Floor:    10,
+		NeedBins: true,
+		Rule: "workspaces (1-3 packages with in-package tests and external test packages) x configurations expressible in both flag dialects (five selections given explicitly to the analyzer, parameters from the registry with boundary values, -go versions); " +
+			"all four binaries (go-critic, gocritic, go-critic-analysis, gocritic-analysis) run on the same tree; the normalised multisets of (file,line,col,checker,message) must be equal and duplicate-free. " +
+			"Once per shard: the checker list of `-enable-all -debug-init` equals the CLI's `-enableAll -v` list. One case in four is in-process: analyzer.Analyzer.Run on an analysis.Pass vs a direct linter run, every Warning.Suggestion must appear as exactly one TextEdit with identical Pos/End/NewText. " +
+			"Non-trivial = >= 1 diagnostic in a workspace with a test variant or >= 2 packages, or an in-process case with >= 1 fix; distinct by workspace+configuration.",
+		Assumptions: []string{"the stock singlechecker driver de-duplicates diagnostics of test variants", "the analyzer is always given an explicit -disable list (its documented default differs from the CLI's)"},
+	},
 }
